@@ -66,7 +66,7 @@ Proof. apply create_index_inv. Qed.
 (* every operation preserves the invariant (mutators simply mark the index stale) *)
 Lemma inv_step s o : Inv s -> Inv (step s o).
 Proof.
-  intros HI. destruct o as [g|gs|a b| | |other]; simpl.
+  intros HI. destruct o as [g|gs|a b| | |other|gs]; simpl.
   - intros H. discriminate.
   - intros H. discriminate.
   - unfold merge_groups. destruct (lookup (index s) a); [|exact HI].
@@ -78,6 +78,7 @@ Proof.
   - apply create_index_inv.
   - unfold add_unseen. destruct (add_unseen_loop _ _ _ _ _ _) as [[gs obs] oi]. simpl.
     apply create_index_inv.
+  - apply create_index_inv.
 Qed.
 
 Lemma inv_reachable init ops : Inv (run_ops init ops).
